@@ -568,6 +568,7 @@ func main() {
 		"Avoided as debatable: re-creating a deleted resource or Usage under the same name, replayDeletion (spawns a timed goroutine), users editing labels/Usage specs, Usages of Usages, Orphan deletion of a using resource as a trigger of O4."
 	c.Rule += " Every fixed scenario also runs with the Thing kind in the core API group (apiVersion 'v1'/'v2' without a slash; fault enumeration for four of them) and a quarter of the random plans do."
 	c.Rule += " " + "Used resources are also deleted by collection (DeleteAllOf: empty admission request name)."
+	c.Rule += " " + "A Usage composed by an XR that shares kind and name with the using resource; Usages with replayDeletion (the timed replay is intercepted and counted)."
 	c.Assumptions = []string{
 		"sim implements optimistic concurrency, no-op writes keeping resourceVersion, finalizers, foreground/background GC (DESIGN.md 2.2); orphan propagation is emulated locally in c19/env.go",
 		"reads are linearizable (the usage controller's cached Usage reads are modelled as fresh: the most favourable case for the code)",
